@@ -197,6 +197,62 @@ def e2e_session(seed, thorough=False):
     return desc, failures
 
 
+def conn_limited_session(seed):
+    """Stream windows are large, the connection window is the limit: only connection-level credit arrives."""
+    import h2.settings
+
+    from . import sched as S
+
+    rng = random.Random(seed)
+    nstreams = rng.choice([1, 2, 3])
+    sids = [1 + 2 * i for i in range(nstreams)]
+    by_path, expected = {}, {}
+    for sid in sids:
+        n = rng.choice([40000, 70000, 100000])
+        body = HS.genb(n, sid % 256)
+        k = rng.choice([1, 2, 5])
+        parts = [body[i * n // k:(i + 1) * n // k] for i in range(k)]
+        script = [("send", {"type": "http.response.start", "status": 200, "headers": []})]
+        for i, b in enumerate(parts):
+            script.append(("send", {"type": "http.response.body", "body": b, "more_body": i < k - 1}))
+        by_path[f"/s{sid}"] = script
+        expected[sid] = body
+    recs = {}
+
+    def make_app(session):
+        async def app(scope, receive, send):
+            r = recs.setdefault(scope["path"], [])
+            await S.scripted_app([by_path[scope["path"]]], r, session.driver)(scope, receive, send)
+
+        return app
+
+    sess = H2.H2Session([], policy=rng.choice(["fifo", "random", "lifo"]), seed=seed,
+                        client_settings={h2.settings.SettingCodes.INITIAL_WINDOW_SIZE: 1_000_000}, app=make_app)
+    sess.auto_ack = False
+    for sid in sids:
+        sess.request(sid, path=f"/s{sid}")
+    sess.pump()
+    failures = []
+    got = sum(len(v) for v in sess.data.values())
+    desc = {"seed": seed, "kind": "conn-limited", "streams": nstreams, "sizes": {s: len(expected[s]) for s in sids},
+            "policy": sess.driver.policy, "initial_window": 1_000_000, "actions": [("stalled-at", got)]}
+    if got > 65535:
+        failures.append({"signature": "connection-window-exceeded", "seed": seed, "got": got})
+    for _ in range(rng.choice([1, 3])):
+        sess.window_update(0, rng.choice([70000, 400000]))
+        sess.pump()
+    sess.window_update(0, 1_000_000)
+    sess.pump()
+    sess.pump()
+    if sess.client_error:
+        failures.append({"signature": "client-saw-protocol-violation", "seed": seed, "error": sess.client_error})
+    for sid in sids:
+        if sess.data.get(sid, b"") != expected[sid] or sess.ended.get(sid, 0) != 1:
+            failures.append({"signature": "stalled-after-connection-window-update", "seed": seed, "stream": sid,
+                             "got": len(sess.data.get(sid, b"")), "expected": len(expected[sid]), "ends": sess.ended.get(sid, 0)})
+    return desc, failures
+
+
 def correspondence(ctx, n, base):
     cases, stats = [], []
     for i in range(n):
@@ -227,7 +283,7 @@ def run(ctx):
     m = ctx.scale(150, 2500, 800)
     descs = []
     for i in range(m):
-        d, f = e2e_session(ctx.seed * 1000003 + i)
+        d, f = e2e_session(ctx.seed * 1000003 + i) if i % 4 else conn_limited_session(ctx.seed * 1000003 + i)
         descs.append(d)
         oracle_failures.extend(f)
     dist = {"correspondence_cases": len(cases), "e2e_sessions": m}
